@@ -46,6 +46,8 @@ def make_spec(st, idx, tier):
         mp.setdefault("unit_blocklist", []).append(zb[0])
     if st.sched.random() < 0.25:
         C.make_live_frame_night(spec)
+    else:
+        C.add_unrequested_gaps(st, spec, p=0.04)
     return spec
 
 
@@ -181,6 +183,8 @@ class Checker(C.BaseChecker):
             st.probes["cat:" + c] += 1
         if flagged:
             st.probes["outlier_model_flagged"] += 1
+        if ex.spec.get("feed_stats", {}).get("unrequested_gaps"):
+            st.probes["night_with_gaps_in_unrequested_columns"] += 1
         if rec.extra.get("feed_frame_reused_in_place"):
             st.probes["poll_on_a_feed_frame_updated_in_place"] += 1
         mp = p["model_parameters"]
